@@ -5,7 +5,7 @@
 #include <sys/personality.h>
 #include <inttypes.h>
 
-extern const Scenario g_scn_honest;
+extern const Scenario g_scn_honest, g_scn_abrupt;
 #ifdef HAVE_SCN_MITM
 extern const Scenario g_scn_mitm_hs, g_scn_mitm_data;
 #endif
@@ -29,7 +29,7 @@ extern const Scenario g_scn_ops;
 #endif
 
 static const Scenario *g_all[] = {
-	&g_scn_honest,
+	&g_scn_honest, &g_scn_abrupt,
 #ifdef HAVE_SCN_MITM
 	&g_scn_mitm_hs, &g_scn_mitm_data,
 #endif
